@@ -164,7 +164,7 @@ func c04Funnel(c *Ctx) {
 		for _, o := range calls(fn, named("os.OpenFile")) {
 			flags := o.Common().Args[1]
 			k, isK := flags.(*ssa.Const)
-			trunc := isK && k.Int64()&0x200 != 0 // O_TRUNC on linux
+			trunc := isK && constInt64(k)&0x200 != 0 // O_TRUNC on linux
 			c.verdict(trunc, fnKey(fn)+":truncates", o.Pos(), "the index file is opened with O_TRUNC", "the index file is opened for writing without O_TRUNC: overwriting a longer index leaves stale table items and an old tail record behind the new one")
 		}
 		for _, o := range calls(fn, named("os.Create")) {
@@ -346,12 +346,12 @@ func c04Rejections(c *Ctx) {
 		// algorithm tests
 		if hasOrigin(cm.x, func(o string) bool { return o == "call:(desync.HashAlgorithm).Algorithm#0" }) {
 			if k, ok := cm.y.(*ssa.Const); ok && k.Value != nil && equal {
-				st.Flags["alg"] = int(k.Int64())
+				st.Flags["alg"] = int(constInt64(k))
 			}
 		}
 		// flag & CaFormatSHA512256 == 0 / != 0
 		if bo, ok := cm.x.(*ssa.BinOp); ok && bo.Op == token.AND && hasOrigin(bo.X, func(o string) bool { return o == "field:FormatIndex.FeatureFlags" }) {
-			if k, ok := cm.y.(*ssa.Const); ok && k.Value != nil && k.Int64() == 0 {
+			if k, ok := cm.y.(*ssa.Const); ok && k.Value != nil && constInt64(k) == 0 {
 				if equal {
 					st.Flags["bit"] = 1 // bit clear
 				} else {
